@@ -19,7 +19,7 @@ THEOREMS = {"Artap.Props.C18": [
 AXIOMS_OK = FLOAT_AXIOMS
 # second tie to the code (tools/py2coq.py + coq/theories/GenProofs): the source of Operator.clip is translated on every run and proved equal to Model/Variation.v clip
 from harness.core import translated_specs
-TRANSLATED = translated_specs("ClipGen")
+TRANSLATED = translated_specs("ClipGen", "SwarmGen", "ArchiveGen")
 TRUSTED = [
     "Coq 8.16.1 kernel, vm_compute for model evaluation (no native_compute)",
     "FloatAxioms (ltb_spec, eqb_spec, opp_spec) and the primitive float operations (standard library) for the binary64 instance",
